@@ -40,7 +40,7 @@ class ResourceMemory:
     remaining_patch: patches.Patch | None = None  # None to save memory
 
     # For resuming handlers tracking and deciding on should they be called or not.
-    noticed_by_listing: bool = False
+    noticed_by_listing: bool | None = None  # None: not noticed by the watching yet (e.g. by admission)
     fully_handled_once: bool = False
 
 
@@ -90,7 +90,7 @@ class ResourceMemories(admission.MemoGetter, daemons.DaemonsMemoriesIterator):
             raw_body: bodies.RawBody,
             *,
             memobase: ephemera.AnyMemo | None = None,
-            noticed_by_listing: bool = False,
+            noticed_by_listing: bool | None = None,  # None if not recalled for the watching
             ephemeral: bool = False,
     ) -> ResourceMemory:
         """
@@ -107,6 +107,10 @@ class ResourceMemories(admission.MemoGetter, daemons.DaemonsMemoriesIterator):
         key = self._build_key(raw_body)
         if key in self._items:
             memory = self._items[key]
+            # A memory created for other purposes (e.g. admission) knows nothing on how the object
+            # is noticed by the watching: the first event of the object's watch-stream decides.
+            if memory.noticed_by_listing is None:
+                memory.noticed_by_listing = noticed_by_listing
         else:
             if memobase is None:
                 memory = ResourceMemory(noticed_by_listing=noticed_by_listing)
